@@ -756,6 +756,12 @@ func (data *Data) UpdateSchema(database string, retentionPolicy string, mst stri
 		newSchema := NewCleanSchema(0)
 		msti.Schema = &newSchema
 	}
+	// validate the whole batch first: a type conflict must not leave the fields before it applied
+	for i := range fieldToCreate {
+		if exist, ok := (*msti.Schema)[fieldToCreate[i].GetFieldName()]; ok && int32(exist.Typ) != fieldToCreate[i].GetFieldType() {
+			return ErrFieldTypeConflict
+		}
+	}
 	if SchemaCleanEn {
 		cleanSchema := msti.Schema
 		for i := range fieldToCreate {
